@@ -697,6 +697,34 @@ static void run_c14(const Args& A, std::map<std::string, std::string>& extra) {
             }
     R.count("grammar_patterns", ngram);
   }
+  // regexp-special characters as LITERAL text: for every character the regexp generator must escape (and a few it must
+  // not), in the five free-text components, the literal  a<c>b  is compiled alone (EXACT_MATCH shortcut unless ignoreCase)
+  // and next to a named group (REGEXP), and matched against a<c>b, ab, a, b, A<c>B and a<c>bx; an unescaped '|', '.', '$'...
+  // changes the regexp's language but not the shortcut's, and makes test() (whole match) and exec() (search) disagree
+  {
+    static const char SPECIAL[] = ".+*?^${}()[]|/\\-,=!<>";
+    uint64_t nspec = 0;
+    for (int k : {1, 2, 5, 6, 7})
+      for (const char* pc = SPECIAL; *pc; ++pc) {
+        const char c = *pc;
+        if ((k == 1 || k == 2) && (c == '/' || c == '\\' || c == '[' || c == ']' || c == '^' || c == '|' || c == '<' || c == '>' || c == '?' || c == '{' || c == '}')) continue;  // userinfo set would percent-encode them: keep this stage about the regexp, not the encode set
+        if ((k == 5) && (c == '?' || c == '\\')) continue;
+        if ((k == 6 || k == 7) && (c == '<' || c == '>')) continue;
+        std::string esc = (strchr("+*?{}():\\", c) ? std::string("\\") : std::string()) + c;
+        std::string lead = k == 5 ? "/" : "";
+        std::vector<Input> ins;
+        for (std::string v : {std::string("a") + c + "b", std::string("ab"), std::string("a"), std::string("b"), std::string("A") + c + "B", std::string("a") + c + "bx", std::string("xa") + c + "b"}) {
+          Spec x; x.d.c[k] = lead + v; ins.push_back({x, denote(x)});
+        }
+        for (std::string pat : {lead + "a" + esc + "b", lead + "a" + esc + "b:id?", lead + ":id" + esc + "b", lead + "{a" + esc + "b}?"}) {
+          Dict d; d.c[k] = pat;
+          assignments++;
+          for (auto& ps : forms(d)) { if (int(ord++ % ns) != sh) continue; if (timed_out()) continue; check_pattern14(ps, ins); }
+          nspec++;
+        }
+      }
+    R.count("regexp_special_literal_patterns", nspec);
+  }
   // every unordered pair of components x every pair of menu values (both tiers: it is cheap enough)
   auto full = [&](int k) { std::vector<int> v; for (size_t i = 1; i < M[k].size(); i++) v.push_back(int(i)); return v; };
   std::string pairs = A.get("pairs", "full"), triples = A.get("triples", T ? "wide" : "small");
